@@ -148,8 +148,7 @@ func runC09(c *Ctx) {
 			// drop guards about emptiness / errors of the expansion itself (they return before any series exists)
 			var kept []guardCond
 			for _, g := range gs {
-				t := strings.ReplaceAll(exprString(g.Cond), " ", "")
-				if strings.Contains(t, "err!=nil") || strings.Contains(t, "ps==nil") {
+				if allNilTests(info, g.Cond) {
 					continue
 				}
 				kept = append(kept, g)
@@ -194,7 +193,7 @@ func runC09(c *Ctx) {
 		nApp := 0
 		inspectNoLit(fn.Body(), func(n ast.Node) bool {
 			as, ok := n.(*ast.AssignStmt)
-			if !ok || len(as.Lhs) != 1 || canon(as.Lhs[0]) != "b.entries" {
+			if !ok || len(as.Lhs) != 1 || canon(as.Lhs[0]) != namesOf(fn).Recv+".entries" {
 				return true
 			}
 			if call, ok := unparen(as.Rhs[0]).(*ast.CallExpr); !ok || exprString(call.Fun) != "append" {
@@ -273,11 +272,11 @@ func runC09(c *Ctx) {
 		x := newE9(p, fn, func(e ast.Expr, text string) string {
 			t := strings.ReplaceAll(text, " ", "")
 			switch {
-			case t == "l":
+			case t == namesOf(fn).Recv:
 				return "lset"
 			case strings.HasSuffix(t, ".limit"):
 				return "limit"
-			case strings.HasSuffix(t, ".reserved.Add(num)"):
+			case strings.HasSuffix(t, ".reserved.Add("+namesOf(fn).P(0)+")"):
 				return "added"
 			case strings.HasPrefix(t, "errors.Errorf(") || strings.HasPrefix(t, "errors.New(") || strings.HasPrefix(t, "fmt.Errorf("):
 				return "ERR"
@@ -362,9 +361,11 @@ func runC09(c *Ctx) {
 			// the passthrough branch: neither a series nor a batch frame
 			passthrough := false
 			for _, g := range guardsOf(p, fn, call) {
-				t := canon(g.Cond)
-				if !g.Pol && (strings.Contains(t, "series!=nil") || strings.Contains(t, "batch!=nil")) {
-					passthrough = true
+				// `if x := response.GetSeries(); x != nil {…} else if y := response.GetBatch(); y != nil {…} else { here }`
+				if as, ok := g.Init.(*ast.AssignStmt); ok && !g.Pol && len(as.Rhs) == 1 {
+					if t := canon(as.Rhs[0]); strings.HasSuffix(t, ".GetSeries()") || strings.HasSuffix(t, ".GetBatch()") {
+						passthrough = true
+					}
 				}
 			}
 			construct := fmt.Sprintf("%s.(*limitedServer).Send#forward[%d]", rel, nFwd-1)
@@ -374,21 +375,33 @@ func runC09(c *Ctx) {
 		})
 		// both frame kinds contribute to the counts
 		single, batch := false, false
+		// the series count: what is handed to the series limiter
+		var countVar types.Object
+		inspectNoLit(fn.Body(), func(n ast.Node) bool {
+			if call, ok := n.(*ast.CallExpr); ok && isLimiterCall("series")(fn.Info(), call) && len(call.Args) >= 1 {
+				countVar = objOf(fn.Info(), call.Args[0])
+			}
+			return true
+		})
 		ast.Inspect(fn.Body(), func(n ast.Node) bool {
 			ifs, ok := n.(*ast.IfStmt)
 			if !ok || ifs.Init == nil {
 				return true
 			}
-			init := exprString(ifs.Init.(*ast.AssignStmt).Rhs[0])
+			ias, ok := ifs.Init.(*ast.AssignStmt)
+			if !ok || len(ias.Rhs) != 1 {
+				return true
+			}
+			init := exprString(ias.Rhs[0])
 			counts := false
 			ast.Inspect(ifs.Body, func(m ast.Node) bool {
 				switch v := m.(type) {
 				case *ast.AssignStmt:
-					if strings.Contains(exprString(v.Lhs[0]), "seriesCount") {
+					if countVar != nil && objOf(fn.Info(), v.Lhs[0]) == countVar {
 						counts = true
 					}
 				case *ast.IncDecStmt:
-					if strings.Contains(exprString(v.X), "seriesCount") {
+					if countVar != nil && objOf(fn.Info(), v.X) == countVar {
 						counts = true
 					}
 				}
